@@ -189,3 +189,16 @@ PROPS["C13"]["phases"] = [ph("tsan", 120), ph("miri", 120, ["tiny"])]
 PROPS["C17"]["phases"] = [ph("asan", 60)]
 PROPS["C18"]["phases"] = [ph("miri", 45, ["tiny"], quick=True, shards=8), ph("asan", 60), ph("miri", 120, ["tiny"])]
 PROPS["C20"]["phases"] = [ph("miri", 120, ["tiny"]), ph("miri", 120, ["extract_only"], shards=8, env={"VMON_TINY": "1"}), ph("valgrind", 90, ["extract_only"]), ph("asan", 60)]
+
+
+# thorough floors: at least 3x the quick floors (the thorough budgets are >= 10x the quick ones);
+# structural floors (all header shapes, complete sweep) stay as they are
+_STRUCT = ("header_shapes_seen", "sweep_filters")
+for _pid, _p in PROPS.items():
+    _q = _p.get("floors", {}).get("quick", {})
+    _t = {k: (v if k in _STRUCT else v * 3) for k, v in _q.items()}
+    if _pid == "C09":
+        _t["max_sources"] = 500
+    if _pid == "C11":
+        _t["sweep_all_256_type_bytes"] = 1
+    _p.setdefault("floors", {})["thorough"] = _t
